@@ -254,6 +254,25 @@ type Params struct {
 	// OW: the one-way style - the client application hands the request to WriteMessage and returns; whatever comes back
 	// reaches the client connection's handler (e2e modes only)
 	OW bool `json:"ow"`
+	// NE: the server application does not announce its representations with an ETag (layer mode, directed retry schedules only:
+	// without ETags a representation change in mid-transfer cannot be noticed by anyone, so only schedules without one use it)
+	NE bool `json:"ne"`
+	// L2B > 0: the representations produced by the second and later executions of the server application are L2B bytes long
+	// (layer mode, directed "again" schedules: a second exchange with the same token right after a completed one)
+	L2B int `json:"l2b"`
+}
+
+func (p Params) downLen(v int) int {
+	if v >= 2 && p.L2B > 0 {
+		return p.L2B
+	}
+	return p.L2
+}
+func (p Params) downMax() int {
+	if p.L2B > p.L2 {
+		return p.L2B
+	}
+	return p.L2
 }
 
 type Act struct {
@@ -310,7 +329,7 @@ func RunLayer(p Params, acts []Act, concurrent bool) LayerTrace {
 	tok := []byte{0x04, 0xC4}
 	var c2s, s2c, sent []wireMsg
 	emit := func(m *pool.Message, dir string) {
-		w := snapshot(m, dir, up, p.L2)
+		w := snapshot(m, dir, up, p.downMax())
 		mu.Lock()
 		if dir == "c2s" {
 			c2s = append(c2s, w)
@@ -330,7 +349,7 @@ func RunLayer(p Params, acts []Act, concurrent bool) LayerTrace {
 		if body != nil {
 			d.Pieces = Pieces(b, body)
 		} else {
-			d.Pieces = PiecesV(b, p.L2, len(tr.App)) // a response body: pieces of the representations produced so far
+			d.Pieces = PiecesV(b, p.downMax(), len(tr.App)) // a response body: pieces of the representations produced so far
 		}
 		for _, o := range m.Options() {
 			d.Opts = append(d.Opts, int(o.ID))
@@ -355,10 +374,14 @@ func RunLayer(p Params, acts []Act, concurrent bool) LayerTrace {
 		if r.Code() == codes.POST || r.Code() == codes.PUT {
 			code = codes.Changed
 		}
-		_ = w.SetResponse(code, message.AppOctets, bytes.NewReader(DownBody(p.L2, v)), message.Option{ID: message.MaxAge, Value: []byte{7}}, message.Option{ID: message.ETag, Value: []byte{byte(v)}})
+		opts := []message.Option{{ID: message.MaxAge, Value: []byte{7}}}
+		if !p.NE {
+			opts = append(opts, message.Option{ID: message.ETag, Value: []byte{byte(v)}})
+		}
+		_ = w.SetResponse(code, message.AppOctets, bytes.NewReader(DownBody(p.downLen(v), v)), opts...)
 	}
 	clientNext := func(_ *responsewriter.ResponseWriter[*fakeCC], r *pool.Message) {
-		respCh <- snapshot(r, "s2c", up, p.L2)
+		respCh <- snapshot(r, "s2c", up, p.downMax())
 	}
 	handle := func(bw *blockwise.BlockWise[*fakeCC], cc *fakeCC, w wireMsg, szx, mms int, dirOut string, next func(*responsewriter.ResponseWriter[*fakeCC], *pool.Message)) {
 		defer func() {
@@ -567,12 +590,24 @@ func RunLayer(p Params, acts []Act, concurrent bool) LayerTrace {
 				}
 				tr.Applied[i] = true
 			}
-		case "restart": // the same request again, same token
+		case "restart", "retry": // the same request again, same token (retry: at once, nothing has timed out)
 			if abandoned {
 				abandoned = false
 				mu.Lock()
 				tr.Ret = "none"
 				mu.Unlock()
+				start()
+				tr.Applied[i] = true
+			}
+		case "again": // the exchange has completed; the application issues the next request with the same token at once
+			mu.Lock()
+			completed := started && tr.Ret == "ok"
+			if completed {
+				tr.Ret, tr.Faulty = "none", true
+			}
+			mu.Unlock()
+			if completed {
+				<-done
 				start()
 				tr.Applied[i] = true
 			}
